@@ -11,7 +11,7 @@ def run(f):
     x = os.path.join(out, os.path.relpath(f, repo).replace("/", "_") + ".xml")
     env = dict(os.environ); env.pop("EXO_LANG_EXO_VERIF", None)
     env["PYTHONPATH"] = os.path.join(repo, "src")
-    subprocess.run(["/venv/bin/python", "-m", "pytest", "-q", "-p", "no:cacheprovider", "--timeout=900",
+    subprocess.run(["/venv/bin/python", "-m", "pytest", "-q", "-p", "no:cacheprovider", "--timeout=3600",
                     "--continue-on-collection-errors", f"--junitxml={x}", os.path.relpath(f, repo)],
                    cwd=repo, env=env, capture_output=True, text=True)
     return x
